@@ -115,6 +115,45 @@ theorem toks_const_exact (k q S s0 : ℤ) (hk : 0 < k) (hq : k * q = 1000000000)
   have : ((i : ℤ) : ℝ) * (q : ℝ) = (((i : ℤ) * q : ℤ) : ℝ) := by push_cast; ring
   rw [this, f2i_intCast]
 
+/-- `Go.f2i` of a non-negative ratio of integers is integer division -/
+theorem f2i_div (a b : ℤ) (ha : 0 ≤ a) (hb : 0 < b) : Go.f2i ((a : ℝ) / (b : ℝ)) = a / b := by
+  have hb' : (0 : ℝ) < (b : ℝ) := by exact_mod_cast hb
+  have ha' : (0 : ℝ) ≤ (a : ℝ) := by exact_mod_cast ha
+  unfold Go.f2i
+  rw [if_pos (div_nonneg ha' hb'.le)]
+  rw [Int.floor_eq_iff]
+  have hm := Int.emod_add_mul_ediv a b
+  have hr0 := Int.emod_nonneg a hb.ne'
+  have hr1 := Int.emod_lt_of_pos a hb
+  constructor
+  · rw [le_div_iff₀ hb']
+    have : (a / b) * b ≤ a := by nlinarith
+    exact_mod_cast this
+  · rw [div_lt_iff₀ hb']
+    have : a < (a / b + 1) * b := by nlinarith
+    exact_mod_cast this
+
+/-- `const` with a FRACTIONAL rate m/1000 operations per second (m > 0) for `ms` milliseconds, float64 read as exact reals:
+⌊m·ms/10⁶⌋ tokens, token i at ⌊i·10¹²/m⌋ ns, finish after the duration -/
+theorem toks_const_frac (m ms s0 : ℤ) (hm : 0 < m) (hms : 0 ≤ ms) :
+    toks (NewConst ((m : ℝ) / 1000) (ms * 1000000)) s0 =
+      ((List.range ((m * ms) / 1000000).toNat).map (fun (i : ℕ) => s0 + ((i : ℤ) * 1000000000000) / m),
+        s0 + ms * 1000000) := by
+  have hm' : (0 : ℝ) < (m : ℝ) := by exact_mod_cast hm
+  have hops : (0 : ℝ) ≤ (m : ℝ) / 1000 := by positivity
+  rw [NewConst_eq _ _ hops]
+  have hn : (m : ℝ) / 1000 * secs (ms * 1000000) = ((m * ms : ℤ) : ℝ) / ((1000000 : ℤ) : ℝ) := by
+    unfold secs; push_cast; field_simp; ring
+  have hq : ∀ i : ℕ, ((i : ℤ) : ℝ) * (1000000000 / ((m : ℝ) / 1000)) = (((i : ℤ) * 1000000000000 : ℤ) : ℝ) / (m : ℝ) := by
+    intro i; push_cast; field_simp; ring
+  simp only [toks, hn]
+  rw [f2i_div _ _ (Int.mul_nonneg hm.le hms) (by norm_num)]
+  refine Prod.ext ?_ rfl
+  simp only
+  apply List.map_congr_left
+  intro i _
+  rw [hq i, f2i_div _ _ (by positivity) hm]
+
 mutual
 /-- the regenerated schedule a part of a startup profile of the harness denotes; a nested composite is
 `schedule.NewComposite` of the schedules of its parts (for no part `NewComposite` returns `NewOnce(0)` and for one part
@@ -165,7 +204,18 @@ theorem partToks_eq : ∀ (p : Spec.C12.Part) (s0 : ℤ) (r : List ℤ × ℤ),
           omega
         rw [hS, toks_const_exact ops _ (ms / 1000) s0 hk hq]
       · simp [hex] at h
-  | .constm _ _, s0, r, h => by simp [Spec.C12.partToks] at h
+  | .constm m ms, s0, r, h => by
+    simp only [Spec.C12.partToks] at h
+    rw [schedOf]
+    by_cases h0 : m ≤ 0
+    · simp [h0] at h
+    · simp only [h0, if_false] at h
+      by_cases hex : (m % 125 == 0 && ms % 125 == 0 && decide (0 ≤ ms) && 8000000000 % (m / 125) == 0) = true
+      · simp only [hex, if_true, Option.some.injEq] at h
+        subst h
+        simp only [Bool.and_eq_true, beq_iff_eq, decide_eq_true_eq] at hex
+        rw [toks_const_frac m ms s0 (by omega) hex.1.2]
+      · simp [hex] at h
   | .step f t st ms, s0, r, h => by
     simp only [Spec.C12.partToks, Option.some.injEq] at h
     subst h
